@@ -1,10 +1,11 @@
 // e_mapped: dispatch; C11, C12.
 #include "../common/engine.hpp"
+#include "../common/keygen.hpp"
 #include <algorithm>
 #include "../common/tape.hpp"
 
 #ifdef _OPENMP
-extern "C" int omp_get_num_procs(void) { return 64; }
+extern "C" int omp_get_num_procs(void) { return vf::g_fake_procs; }
 #endif
 
 namespace vf {
